@@ -28,6 +28,15 @@ fn run_sim_case(ev: &mut Ev, prog: &progs::Program, r: &mut Rng, schedules: usiz
         ev.hit(&format!("sim:quantum:{}", quantum.map(|q| q.to_string()).unwrap_or("default".into())));
         match out {
             Ok(Ok(st)) => {
+                if let Some(d) = &st.dead_roots {
+                    ev.hit(&format!("sim:dead-roots:{}", prog.family));
+                    ev.violation(
+                        "oracle kind=dead-roots",
+                        &format!("C06 F17: storage nothing can use any more is never reclaimed - {d}"),
+                        json!({"kind": "sim", "family": prog.family, "lines": prog.lines, "workers": workers, "quantum": quantum, "sched_seed": cfg.sched_seed, "detail": d}),
+                        true,
+                    );
+                }
                 ev.add("sim:worker_steps_checked", st.worker_steps);
                 ev.add("sim:slots_observed", st.slots_seen);
                 ev.add("sim:slot_reuses_observed", st.reuse_seen);
@@ -102,6 +111,18 @@ fn main() {
                 break;
             }
         }
+        // 2b. the tail-recursive receive loop: N and 50 N iterations, same heap bound
+        let n_small = 20usize;
+        let n_large = opts.tier.pick(1000usize, 5000);
+        let mut sizes = vec![];
+        for (k, (n, store)) in [(n_small, false), (n_small, true), (n_large, false), (n_large, true)].into_iter().enumerate() {
+            let mut r = Rng::for_case(opts.seed ^ 0x4EC7, k as u64);
+            match lockstep::run_recv_loop(&mut r, &b, &mut model, &mut ev, n, store) {
+                Ok(sz) => sizes.push(json!({"iterations": n, "store_variant": store, "max_heap_slots": sz})),
+                Err((sig, detail, replay, found)) => ev.violation(&sig, &format!("C06 receive loop: {detail}"), replay, found),
+            }
+        }
+        ev.set_extra("recv_loop", json!(sizes));
         ev.set_extra("model_requests", json!(model.requests));
     } else {
         ev.hit("lockstep:skipped-no-model");
